@@ -393,7 +393,7 @@ def build(repo=None):
             eng.oblige(s1, "C11:Typechecker:other-lookup-entries-untouched", z3.Implies(kk != h, z3.And(L.d[kk] == l0.d[kk], L.m[kk] == l0.m[kk])))
             if kind == "str":
                 eng.oblige(s1, "C11:Typechecker:lookup-entry-is-the-function-defined-from-the-checker-string", L.m[h] == made.t)
-        collect(st.obl, ["C11"])
+        collect(st.obl, ["C11", "C18"])  # the hash is also the bytecode-cache tag: two different checker strings must never share it (C18)
     # the exec'd source applies exactly the checker string; get_ast mentions this instance's hash
     src_ok = False
     for nnode in ast.walk(ti):
@@ -747,7 +747,7 @@ def build(repo=None):
             eng.oblige(s1, "C10:visitor-returns-the-node-and-writes-no-other-field", z3.BoolVal(o.kind == "return" and isinstance(o.val, Ref) and o.val.h == node.h and s1.get(node) is n0 and s1.get(self_ref) is sf0))
             pz = s1.get(parents)
             eng.oblige(s1, "C10:parents-stack-balanced", z3.BoolVal(pz.items == [] and pz.lower is p0.lower))
-        collect(st.obl, ["C10"])
+        collect(st.obl, ["C10", "C17"])  # innermost placement = the annotations see what the function itself sees under jit/vmap (C17)
 
     run_visit("visit_FunctionDef", "append")
     run_visit("visit_ClassDef", "insert0")
